@@ -126,10 +126,41 @@ def into_jobs(tier):
     return J
 
 
+PTR_BASE = ["src/lib/record/ares_dns_record.c", "src/lib/str/ares_buf.c", "src/lib/str/ares_str.c", "src/lib/ares_library_init.c"]
+
+
+def ptr_jobs(tier):
+    J = []
+    J.append(dict(name="c13_ptrname_v6", harness="ptrname.c", defines=["-DMODE=0"], real=PTR_BASE + ["src/lib/util/ares_math.c"],
+                  unwind=20, unwindset=["harness.0:18", "harness.2:75", "vp_realloc.0:130", "memcpy.0:130"], leak=True, mem_gb=6, timeout=240,
+                  bound="ares_dns_addr_to_ptr for ALL IPv6 addresses (128 bits symbolic) == nibble-reversed ip6.arpa reference"))
+    for a in (1, 2, 3):
+        for b in (1, 2, 3):
+            for c in (1, 2, 3):
+                for d in (1, 2, 3):
+                    sh = "%d%d%d%d" % (a, b, c, d)
+                    J.append(dict(name="c13_ptrname_v4_d%s" % sh, harness="ptrname.c", defines=["-DMODE=1", "-DDSHAPE=" + sh],
+                                  real=PTR_BASE, unwind=20, unwindset=["harness.2:32"], leak=True, mem_gb=6, timeout=240,
+                                  bound="ares_dns_addr_to_ptr for ALL IPv4 addresses whose octets have %s decimal digits (32 bits "
+                                        "symbolic within that slice; 81 slices = all addresses) == reversed in-addr.arpa reference" % sh))
+    for req in (0, 4, 6):
+        for pre in (0, 4, 6):
+            J.append(dict(name="c13_localhost_req%d_pre%d" % (req, pre), harness="ptrname.c",
+                          defines=["-DMODE=2", "-DREQ=%d" % req, "-DPRE=%d" % pre],
+                          real=LIB + ["src/lib/ares_addrinfo_localhost.c", "src/lib/ares_getaddrinfo.c", "src/lib/ares_freeaddrinfo.c",
+                                      "src/lib/inet_net_pton.c", "src/lib/str/ares_str.c", "src/lib/str/ares_buf.c", "src/lib/util/ares_math.c"],
+                          unwind=20, leak=True, mem_gb=6, timeout=240,
+                          bound="ares_addrinfo_localhost, family %s, %s: only 127.0.0.1 / ::1 of the requested family are added, once, "
+                                "with the port" % ({0: "AF_UNSPEC", 4: "AF_INET", 6: "AF_INET6"}[req],
+                                                   "no node present" if not pre else "an AF_INET%s node already present" % ("" if pre == 4 else "6"))))
+    return J
+
+
 def jobs(tier, seed):
     J = []
     J += sort_jobs(tier)
     J += sortlist_jobs(tier)
     J += hostent_jobs(tier)
     J += into_jobs(tier)
+    J += ptr_jobs(tier)
     return J
